@@ -65,8 +65,8 @@ func VH_C17_table_stop() {
 func VH_C17_index_stop() {
 	e, in := vhIndexSetup()
 	deep := len(e.ents) == 7 // depth 3, one entry per page
-	if len(e.ents) > 5+3*verifTier() && !deep {
-		// trees of <= 5 entries (thorough: <= 8), plus the 7-entry depth-3 shape
+	if len(e.ents) > 5 && !deep {
+		// trees of <= 5 entries, plus the 7-entry depth-3 shape
 		verifReach("end")
 		return
 	}
